@@ -1191,8 +1191,12 @@ class _ClassBuilder:
     def add_setattr(self):
         sa_attrs = {}
         for a in self._attrs:
-            on_setattr = a.on_setattr or self._on_setattr
-            if on_setattr and on_setattr is not setters.NO_OP:
+            on_setattr = (
+                a.on_setattr
+                if a.on_setattr is not None
+                else self._on_setattr
+            )
+            if on_setattr is not None and on_setattr is not setters.NO_OP:
                 sa_attrs[a.name] = a, on_setattr
 
         if not sa_attrs:
